@@ -230,9 +230,36 @@ def c02(tier, replay):
         extra_leg=_decode_trace_leg)
 
 
+def py_random_leg(rep, checks, tier, groups):
+    """vectors / layouts of randomly drawn deeper schemas replayed into the Python side"""
+    from . import randwire
+    pid = rep.pid
+    results = wire.run_batches(pywire.worker, groups, randwire._VS(), {"checks": checks, "scratch": scratch_dir("py")})
+    for r in results:
+        if "crash" in r:
+            rep.violation({"what": "worker crashed or hung: %s" % r["crash"], "groups": r["groups"]})
+            continue
+        rep.count(r["n_vec"])
+        rep.validated(r["n_vec"])
+        for gid in r["nontrivial"]:
+            rep.nontrivial("pyr:%s" % gid)
+        for f in r["fails"]:
+            rep.violation(f, shadows.match(pid, f))
+        for k, n in r.get("n_checked", {}).items():
+            rep.cov["py_random_checked_" + k] = rep.cov.get("py_random_checked_" + k, 0) + n
+    rep.cov["py_random_schemas"] = len(groups)
+
+
 def _both(pid, tier, py_checks, cpp_checks, assumptions, rule, layouts=False):
     rep = Report(pid, tier)
     rep.assumptions = assumptions
+    if layouts:
+        from . import randwire
+        rgroups, rstats = randwire.raw_groups(tier, 89)
+        for st in rstats:
+            rep.add_tlc(st)
+        py_random_leg(rep, py_checks, tier, rgroups)
+        cpp_random_leg(rep, cpp_checks, tier, False, groups=rgroups)
     vs = wire.generate_layouts(tier) if layouts else wire.generate(tier)
     for st in vs.stats:
         rep.add_tlc(st)
@@ -355,13 +382,15 @@ def cpp_leg(rep, vs, checks, tier, nbatch=12):
     return groups
 
 
-def cpp_random_leg(rep, checks, tier, faults):
+def cpp_random_leg(rep, checks, tier, faults, groups=None):
     """Random schemas (vf/gen.py): canonical images computed by TLC from the
     encoder specification and, for `faults`, arbitrary mutations judged by the
     reference decoder - replayed into the generated C++ codec."""
     from . import randwire
     pid = rep.pid
-    if faults:
+    if groups is not None:
+        stats = []
+    elif faults:
         groups, stats = randwire.fault_groups(tier, 31)
     else:
         _, groups, stats = randwire.canonical_groups(tier, 17)
@@ -454,6 +483,16 @@ def c18(tier, replay):
     cap = 500 if tier == "quick" else 6000
     if len(groups) > cap:
         groups = rnd.sample(groups, cap)
+    # randomly drawn deeper schemas (vf/gen.py), same treatment
+    from . import randwire
+    _, rgroups, rstats = randwire.canonical_groups(tier, 71, n_quick=48, n_thorough=1200)
+    rgroups = [g for g in rgroups if '"flt"' not in json.dumps(g["cons"])]
+    vs.inner["given"] = []
+    for g in rgroups:
+        for v in g["vectors"]:
+            v["pin_gid"] = g["gid"]      # type names are derived from the group id: keep it through regrouping
+    groups += rgroups
+    rep.cov["random_schemas"] = len(rgroups)
     items, where = [], []
     for g in groups:
         env = wire.make_env(vs.inner[g["inner"]], g)
